@@ -26,6 +26,7 @@ Check(e) ==
         ELSE IF e.prefix # Pre(e.pre) THEN "buffer-prefix-overwritten"
         ELSE IF ~MsgEq(m, e.after, M) THEN "message-modified-by-encode"
         ELSE IF e.again # e.tail THEN "encode-not-deterministic"
+        ELSE IF e.held # e.again THEN "encode-result-aliases-library-memory"
         ELSE "ok"
     [] OTHER -> "ok"
 Info(e) == e.op = "PureE" => (e.tail = Encode(Msgs[MsgByName(e.m)], [mand |-> e.mand, opt |-> e.opt]))
